@@ -124,15 +124,16 @@ def gfcfg(flags):
         gbool("self_transfer" in flags), gbool("neg_amount" in flags), gbool("fee_after_body" in flags))
 
 
-XFLAGS = ["raw_add", "stub_promoted", "ibtp_no_revert", "failed_events", "stale_changer"]
+XFLAGS = ["raw_add", "stub_promoted", "ibtp_no_revert", "failed_events", "stale_changer", "prev_from_memory", "revert_drops_tombstone"]
 FFLAGS = ["self_transfer", "neg_amount", "fee_after_body"]
 
 
 def gxcfg(flags):
     return ("{| d_raw_add := %s; d_stub_promoted := %s; d_ibtp_no_revert := %s; d_failed_events := %s; "
-            "d_stale_changer := %s; x_fees := %s |}") % (
+            "d_stale_changer := %s; d_prev_from_memory := %s; d_revert_drops_tombstone := %s; x_fees := %s |}") % (
         gbool("raw_add" in flags), gbool("stub_promoted" in flags), gbool("ibtp_no_revert" in flags),
-        gbool("failed_events" in flags), gbool("stale_changer" in flags), gfcfg(flags))
+        gbool("failed_events" in flags), gbool("stale_changer" in flags), gbool("prev_from_memory" in flags),
+        gbool("revert_drops_tombstone" in flags), gfcfg(flags))
 
 
 def genv(admins, price, genesis):
@@ -151,6 +152,8 @@ def gprog(p):
         return "Panic"
     if t == "touch":
         return "(Touch %s %s)" % (gNn(p[1]), gprog(p[2]))
+    if t == "peek":
+        return "(Peek %s %s)" % (gkey(p[1]), gprog(p[2]))
     if t == "jw":
         return "(JWrite %s %s %s)" % (gkey(p[1]), gNn(p[2]), gprog(p[3]))
     if t == "jd":
@@ -176,7 +179,7 @@ def prog_keys(p):
         return [p[1]] + prog_keys(p[3])
     if t == "jd":
         return [p[1]] + prog_keys(p[2])
-    if t in ("touch", "ev"):
+    if t in ("touch", "ev", "peek"):
         return prog_keys(p[2])
     if t == "setbal":
         return prog_keys(p[3])
@@ -217,7 +220,14 @@ def body_keys(b):
         return prog_keys(b[1])
     if b[0] == "stub":
         return [b[2]]
+    if b[0] in ("get", "putabsent"):
+        return [b[1]]
     return []
+
+
+def body_reads(b):
+    """keys whose presence decides the receipt of the operation"""
+    return [b[1]] if b[0] == "get" else []
 
 
 def gctx(frm, nonce, body, invalid):
@@ -354,6 +364,29 @@ def op_store_set(ids, frm, k, v):
                 body=("bvm", ("jw", store_key(ids, "store", k), v, ("done",))), invalid=False, tag="store_set")
 
 
+def op_store_get(ids, frm, k):
+    """Store.Get: SUCCESS iff the key is present (the contract's own read of the state)"""
+    return dict(tx={"t": "bvm", "from": frm, "to": "c:store", "m": "Get", "args": [["s", k]]}, frm=frm,
+                body=("get", store_key(ids, "store", k)), invalid=False, tag="store_get")
+
+
+def op_register_interchain(ids, frm, chainsvc):
+    """InterchainManager.Register(chain:service): reads service-<id>, writes a fresh record when absent, succeeds"""
+    return dict(tx={"t": "bvm", "from": frm, "to": "c:interchain", "m": "Register", "args": [["s", chainsvc]]}, frm=frm,
+                body=("putabsent", ids.key("c:interchain", "service-1356:" + chainsvc), "OBS"), invalid=False, tag="register_interchain")
+
+
+def op_delete_interchain(ids, frm, chainsvc):
+    """InterchainManager.DeleteInterchain(full id): Stub.Delete of service-<id> (audit off: succeeds)"""
+    return dict(tx={"t": "bvm", "from": frm, "to": "c:interchain", "m": "DeleteInterchain", "args": [["s", "1356:" + chainsvc]]}, frm=frm,
+                body=("bvm", ("jd", ids.key("c:interchain", "service-1356:" + chainsvc), ("done",))), invalid=False, tag="delete_interchain")
+
+
+def op_get_interchain(ids, frm, chainsvc):
+    return dict(tx={"t": "bvm", "from": frm, "to": "c:interchain", "m": "GetInterchain", "args": [["s", "1356:" + chainsvc]]}, frm=frm,
+                body=("get", ids.key("c:interchain", "service-1356:" + chainsvc)), invalid=False, tag="get_interchain")
+
+
 def op_store_get_missing(frm, k):
     return dict(tx={"t": "bvm", "from": frm, "to": "c:store", "m": "Get", "args": [["s", k]]}, frm=frm,
                 body=("bvm", ("touch", CID["store"], ("fail", False))), invalid=False, tag="call_fails")
@@ -478,12 +511,22 @@ def resolve_obs_values(body, ids, ob_state):
         return p
     if body[0] in ("bvm", "ibtp"):
         return (body[0], fix(body[1]))
+    if body[0] == "putabsent" and body[2] == "OBS":
+        v = 1
+        for s in ob_state or []:
+            if ids.key(s[0], s[1]) == body[1] and s[3] is not None:
+                v = ids.val(s[3])
+        return ("putabsent", body[1], v)
     return body
 
 
 def gcbody2(b):
     if b[0] == "grant":
         return "(CGrant %s %s)" % (gNn(b[1]), gbool(b[2]))
+    if b[0] == "get":
+        return "(CGet %s)" % gkey(b[1])
+    if b[0] == "putabsent":
+        return "(CPutIfAbsent %s %s)" % (gkey(b[1]), gNn(b[2]))
     return gcbody(b)
 
 
@@ -508,14 +551,14 @@ class Run:
         self.nonces[tx["from"]] = n + 1
         return n
 
-    def xcase(self, ob, ops, flagsets, genesis, price, opaque=False, pre=()):
+    def xcase(self, ob, ops, flagsets, genesis, price, opaque=False, pre=(), warm=None, meta=()):
         """Gallina xcase for one block (ops = the abstract ops of its transactions); call BEFORE apply_block"""
         ids, sh = self.ids, self.sh
         ctxs, keys, accts = [], [], ["a:%d" % i for i in range(self.admins)]
         for o in ops:
             body = resolve_obs_values(o["body"], ids, ob.get("state"))
-            ctxs.append(gctx(acct_id(o["frm"]), self.take_nonce(o["tx"]), body, o["invalid"]) if body[0] != "grant" else
-                        "{| c_from := %s; c_nonce := %s; c_body := %s; c_invalid := false |}" % (gNn(acct_id(o["frm"])), gNn(self.take_nonce(o["tx"])), gcbody2(body)))
+            ctxs.append("{| c_from := %s; c_nonce := %s; c_body := %s; c_invalid := %s |}" % (
+                gNn(acct_id(o["frm"])), gNn(self.take_nonce(o["tx"])), gcbody2(body), gbool(o["invalid"])))
             keys += body_keys(body)
             accts.append(o["frm"])
             accts += o.get("accts", [])
@@ -554,7 +597,8 @@ class Run:
         recs = [rc[0] == 0 for rc in ob["receipts"]]
         cnt = counter_entries(ob, chain_id)
         row = ("{| xc_cfgs := %s; xc_env := %s; xc_keys := %s; xc_bals := %s; xc_nonces := %s; xc_pre := %s; xc_txs := %s; "
-               "xc_recs := %s; xc_okeys := %s; xc_obals := %s; xc_ononces := %s; xc_ocnt := %s; xc_other := %s |}") % (
+               "xc_recs := %s; xc_okeys := %s; xc_obals := %s; xc_ononces := %s; xc_ocnt := %s; xc_other := %s; "
+               "xc_warm := %s; xc_meta := %s |}") % (
             glist([gxcfg(f) for f in flagsets]), genv(self.admins, price, genesis),
             glist(["(%s, %s)" % (gkey(k), goptN(v)) for k, v in init_keys]),
             glist(["(%s, %s)" % (gNn(a), gZ(b)) for a, b in init_bals]),
@@ -565,8 +609,10 @@ class Run:
             glist(["(%s, %s)" % (gNn(a), gZ(b)) for a, b in obals]),
             glist(["(%s, %s)" % (gNn(a), gNn(n)) for a, n in ononces]),
             glist(["(%s, (%s, %s, %s))" % (gNn(c), gNn(i), gbool(v), gbool(b)) for c, i, v, b in cnt]),
-            gNn(other))
-        return row, dict(recs=recs, nontrivial=(any(recs) and not all(recs)))
+            gNn(other),
+            "None" if warm is None else "(Some %s)" % glist([gkey(k) for k in warm]),
+            glist(["(%s, %s)" % (goptN(a), goptN(b)) for a, b in meta]))
+        return row, dict(recs=recs, nontrivial=(any(recs) and not all(recs)), keys=keys)
 
 
 XPRE = "From BX Require Import Base.Prelude Model.Fees Model.ExecFrame.\nLocal Open Scope Z_scope.\n"
@@ -582,6 +628,8 @@ def tuplify(x):
 def revive_ops(g):
     """a generator record loaded from a replay file: restore tuple bodies"""
     for ops in g["blocks"]:
+        if isinstance(ops, str):
+            continue
         for o in ops:
             o["body"] = tuplify(o["body"])
     return g
@@ -626,7 +674,7 @@ def shrink_blocks(g, bi, still_bad, budget=14):
             i += 1
     # transactions of the offending block
     j = 0
-    while j < len(best["blocks"][bbi]) and len(best["blocks"][bbi]) > 1 and used[0] < budget:
+    while not isinstance(best["blocks"][bbi], str) and j < len(best["blocks"][bbi]) and len(best["blocks"][bbi]) > 1 and used[0] < budget:
         cand = copy.deepcopy(best)
         del cand["blocks"][bbi][j]
         r = attempt(cand)
